@@ -577,4 +577,173 @@ Proof. intros HInv HI.
   destruct (walk_n_inv _ _ _ _ _ _ _ Hw HI ltac:(intros H; exfalso; apply H; reflexivity)) as (A & B & C & D & F).
   split; [exact B|]. split; [exact C|]. split; [exact D|]. split; [eapply Inv_same; eauto|]. split; [exact A|]. split; [exact F|exact H0].
 Qed.
+
+(* ---- C04: the nearest-key search ---- *)
+(* the floor of k in a sorted node list / along the search path of a tree *)
+Fixpoint lfloor (k : node) (l : list node) (best : option node) : option node :=
+  match l with [] => best | a :: r => match ncmp k a with Lt => best | Eq => Some a | Gt => lfloor k r (Some a) end end.
+Fixpoint tfloor (t : tree node) (k : node) (best : option node) : option node :=
+  match t with E => best | T _ l x r => match ncmp k x with Eq => Some x | Lt => tfloor l k best | Gt => tfloor r k (Some x) end end.
+Lemma map_lfloor k l : forall best, option_map kv (lfloor (probe k) l best) = sfloor kcmp k (map kv l) (option_map kv best).
+Proof. induction l as [|a l IH]; intros best; [reflexivity|]. cbn [lfloor map sfloor]. unfold kv at 2. unfold QTree.ncmp at 1. cbn [probe nkey].
+  destruct (kcmp k (nkey a)); [reflexivity|reflexivity|]. rewrite IH. reflexivity. Qed.
+Lemma lfloor_app_lt k a A0 B : ncmp k a = Lt -> forall best, lfloor k (A0 ++ a :: B) best = lfloor k A0 best.
+Proof. intros H. induction A0 as [|z A0 IH]; intros best; cbn [app lfloor]; [rewrite H; reflexivity|]. destruct (ncmp k z); auto. Qed.
+Lemma lfloor_app_ge k a A0 B b2 : Forall (fun z => ncmp k z = Gt) A0 -> ncmp k a <> Lt -> forall b1, lfloor k (A0 ++ a :: B) b1 = lfloor k (a :: B) b2.
+Proof. intros HF Ha. induction HF as [|z A0 Hz _ IH]; intros b1.
+  - cbn [app lfloor]. destruct (ncmp k a); [reflexivity|congruence|reflexivity].
+  - cbn [app lfloor]. rewrite Hz. apply IH. Qed.
+Lemma tfloor_spec t k : sorted node ncmp (elements t) -> forall best, tfloor t k best = lfloor k (elements t) best.
+Proof. induction t as [|c l IHl x r IHr]; [reflexivity|]. cbn [elements tfloor]. intros Hs best.
+  destruct (sorted_app _ _ _ _ _ Hs) as (Sl & Sr & Fl & Fr). destruct (ncmp k x) eqn:Hc.
+  - rewrite (lfloor_app_ge k x _ _ best) by (try apply (below_gt node ncmp nt ne k x); auto; congruence). cbn [lfloor]. rewrite Hc. reflexivity.
+  - rewrite lfloor_app_lt by auto. auto.
+  - rewrite (lfloor_app_ge k x _ _ best) by (try apply (below_gt node ncmp nt ne k x); auto; congruence). cbn [lfloor]. rewrite Hc. auto.
+Qed.
+Lemma tfloor_best k : forall u b1, tfloor u k b1 = match tfloor u k None with Some y => Some y | None => b1 end.
+Proof. induction u as [|c l IHl x r IHr]; intros b1; [reflexivity|]. cbn [tfloor]. destruct (ncmp k x); [reflexivity|apply IHl|].
+  rewrite (IHr (Some x)). destruct (tfloor r k None); reflexivity. Qed.
+
+Lemma tfloor_lt k c l x r b : ncmp k x = Lt -> tfloor (T c l x r) k b = tfloor l k b.
+Proof. intros H. cbn [tfloor]. rewrite H. reflexivity. Qed.
+Lemma tfloor_gt k c l x r b : ncmp k x = Gt -> tfloor (T c l x r) k b = tfloor r k (Some x).
+Proof. intros H. cbn [tfloor]. rewrite H. reflexivity. Qed.
+
+(* parent links: the root of v points to p / the links from node i up to the root of the subtree are the true parents *)
+Definition linkok (nx : PM.t positive) (v : tree node) (p : positive) : Prop :=
+  match v with E => False | T _ _ y _ => PM.find (nid y) nx = Some p end.
+Inductive plink (nx : PM.t positive) : tree node -> positive -> Prop :=
+| pl_here c l x r : plink nx (T c l x r) (nid x)
+| pl_left c l x r i : plink nx l i -> linkok nx l (nid x) -> plink nx (T c l x r) i
+| pl_right c l x r i : plink nx r i -> linkok nx r (nid x) -> plink nx (T c l x r) i.
+
+(* the climb from the last node z of an unsuccessful descent in subtree u *)
+Definition climbs (t : tree node) (k : node) (nx' : PM.t positive) (z : node) (u : tree node) : Prop :=
+  match tfloor u k None with
+  | Some y => In y (elements u) /\ plink nx' u (nid y) /\
+              exists d, 1 <= d <= size u /\ forall f, fn_climb kcmp (f + d) t k nx' (Some (nid z)) = Ok (Some (nid y))
+  | None => hd_error (elements u) = Some z /\
+            exists d, 1 <= d <= size u /\ forall f ri, rootid u = Some ri ->
+              fn_climb kcmp (f + d) t k nx' (Some (nid z)) = fn_climb kcmp f t k nx' (PM.find ri nx')
+  end.
+
+Lemma hd_app_some (A0 B : list node) z : hd_error A0 = Some z -> hd_error (A0 ++ B) = Some z.
+Proof. destruct A0; [discriminate|auto]. Qed.
+
+Lemma descend_spec t k : forall u nx last found last' nx',
+  fn_descend kcmp u k nx last = (found, last', nx') -> wfv t u -> NoDup (ids u) ->
+  (forall j, ~ In j (ids u) \/ rootid u = Some j -> PM.find j nx' = PM.find j nx) /\
+  match found with
+  | Some i => plink nx' u i /\ exists x, i = nid x /\ In x (elements u) /\ forall best, tfloor u k best = Some x
+  | None => match u with
+            | E => last' = last
+            | _ => exists z, last' = Some (nid z) /\ In z (elements u) /\ plink nx' u (nid z) /\ climbs t k nx' z u
+            end
+  end.
+Proof.
+  induction u as [|c l IHl x r IHr]; intros nx last found last' nx' H Hwf Hnd.
+  { cbn in H. inversion H; subst. split; [auto|reflexivity]. }
+  cbn [fn_descend] in H. destruct Hwf as (Hv & Hwl & Hwr).
+  destruct (nodup_node _ _ _ _ Hnd) as (Hndl & Hndr & Hxl & Hxr & Hdis).
+  assert (Hxin : In x (elements (T c l x r))) by (cbn [elements]; apply in_or_app; right; left; reflexivity).
+  destruct (ncmp k x) eqn:Hc.
+  - inversion H; subst. split; [auto|]. split; [constructor|]. exists x. split; [reflexivity|]. split; [exact Hxin|].
+    intros best. cbn [tfloor]. rewrite Hc. reflexivity.
+  - destruct (IHl _ _ _ _ _ H Hwl Hndl) as (L1 & L2). clear IHl IHr.
+    assert (L1u : forall j, ~ In j (ids (T c l x r)) \/ rootid (T c l x r) = Some j -> PM.find j nx' = PM.find j nx).
+    { intros j Hj. assert (Hjl : ~ In j (ids l)).
+      { destruct Hj as [Hj|Hj]; [intros Hin; apply Hj; rewrite ids_node; apply in_or_app; auto|]. cbn in Hj. inversion Hj; subst. exact Hxl. }
+      rewrite L1 by (left; exact Hjl). destruct l as [|cl ll lx lr]; [reflexivity|]. cbn [rootid]. apply PM.gso. intros ->. apply Hjl. apply rootid_in. reflexivity. }
+    assert (Hlk : l <> E -> linkok nx' l (nid x)).
+    { destruct l as [|cl ll lx lr]; [congruence|]. intros _. cbn [linkok]. rewrite L1 by (right; reflexivity). cbn [rootid]. apply PM.gss. }
+    split; [exact L1u|]. destruct found as [i|].
+    + destruct L2 as (P & y & -> & Hy & Hb). split; [apply pl_left; auto; apply Hlk; intros ->; inversion P|].
+      exists y. split; [reflexivity|]. split; [cbn [elements]; apply in_or_app; auto|]. intros best. cbn [tfloor]. rewrite Hc. apply Hb.
+    + destruct l as [|cl ll lx lr].
+      * subst last'. exists x. split; [reflexivity|]. split; [exact Hxin|]. split; [constructor|]. unfold climbs. cbn [tfloor]. rewrite Hc. cbn [tfloor].
+        split; [reflexivity|]. exists 1. split; [cbn [size]; lia|]. intros f ri Hri. inversion Hri; subst ri. rewrite Nat.add_1_r. cbn [fn_climb]. rewrite Hv, Hc. reflexivity.
+      * destruct L2 as (z & -> & Hz & Pz & Cl). specialize (Hlk ltac:(discriminate)).
+        exists z. split; [reflexivity|]. split; [cbn [elements]; apply in_or_app; auto|]. split; [apply pl_left; auto|].
+        unfold climbs in *. rewrite (tfloor_lt _ _ _ _ _ _ Hc). destruct (tfloor (T cl ll lx lr) k None) as [y|].
+        -- destruct Cl as (Hy & Py & d & Hd & Hf). split; [cbn [elements]; apply in_or_app; auto|]. split; [apply pl_left; auto|].
+           exists d. split; [cbn [size] in *; lia|exact Hf].
+        -- destruct Cl as (Hhd & d & Hd & Hf). split; [cbn [elements]; apply hd_app_some; exact Hhd|].
+           exists (S d). split; [cbn [size] in *; lia|]. intros f ri Hri. inversion Hri; subst ri.
+           replace (f + S d) with (S f + d) by lia. rewrite (Hf (S f) (nid lx) eq_refl). cbn [linkok] in Hlk. rewrite Hlk.
+           cbn [fn_climb]. rewrite Hv, Hc. reflexivity.
+  - destruct (IHr _ _ _ _ _ H Hwr Hndr) as (L1 & L2). clear IHl IHr.
+    assert (L1u : forall j, ~ In j (ids (T c l x r)) \/ rootid (T c l x r) = Some j -> PM.find j nx' = PM.find j nx).
+    { intros j Hj. assert (Hjr : ~ In j (ids r)).
+      { destruct Hj as [Hj|Hj]; [intros Hin; apply Hj; rewrite ids_node; apply in_or_app; right; right; auto|]. cbn in Hj. inversion Hj; subst. exact Hxr. }
+      rewrite L1 by (left; exact Hjr). destruct r as [|cr rl rx rr]; [reflexivity|]. cbn [rootid]. apply PM.gso. intros ->. apply Hjr. apply rootid_in. reflexivity. }
+    assert (Hlk : r <> E -> linkok nx' r (nid x)).
+    { destruct r as [|cr rl rx rr]; [congruence|]. intros _. cbn [linkok]. rewrite L1 by (right; reflexivity). cbn [rootid]. apply PM.gss. }
+    split; [exact L1u|]. destruct found as [i|].
+    + destruct L2 as (P & y & -> & Hy & Hb). split; [apply pl_right; auto; apply Hlk; intros ->; inversion P|].
+      exists y. split; [reflexivity|]. split; [cbn [elements]; apply in_or_app; right; right; auto|]. intros best. cbn [tfloor]. rewrite Hc. apply Hb.
+    + destruct r as [|cr rl rx rr].
+      * subst last'. exists x. split; [reflexivity|]. split; [exact Hxin|]. split; [constructor|]. unfold climbs. cbn [tfloor]. rewrite Hc. cbn [tfloor].
+        split; [exact Hxin|]. split; [constructor|]. exists 1. split; [cbn [size]; lia|]. intros f. rewrite Nat.add_1_r. cbn [fn_climb]. rewrite Hv, Hc. reflexivity.
+      * destruct L2 as (z & -> & Hz & Pz & Cl). specialize (Hlk ltac:(discriminate)).
+        exists z. split; [reflexivity|]. split; [cbn [elements]; apply in_or_app; right; right; auto|]. split; [apply pl_right; auto|].
+        unfold climbs in *. rewrite (tfloor_gt _ _ _ _ _ _ Hc). rewrite tfloor_best. destruct (tfloor (T cr rl rx rr) k None) as [y|].
+        -- destruct Cl as (Hy & Py & d & Hd & Hf). split; [cbn [elements]; apply in_or_app; right; right; auto|]. split; [apply pl_right; auto|].
+           exists d. split; [cbn [size] in *; lia|exact Hf].
+        -- destruct Cl as (Hhd & d & Hd & Hf). split; [exact Hxin|]. split; [constructor|].
+           exists (S d). split; [cbn [size] in *; lia|]. intros f.
+           replace (f + S d) with (S f + d) by lia. rewrite (Hf (S f) (nid rx) eq_refl). cbn [linkok] in Hlk. rewrite Hlk.
+           cbn [fn_climb]. rewrite Hv, Hc. reflexivity.
+Qed.
+
+Lemma lookup_elem t y : NoDup (ids t) -> In y (elements t) -> exists lo ro, lookup t (nid y) = Some (y, lo, ro).
+Proof. intros Hnd Hy. pose proof (getn_elem t y Hnd Hy) as H. unfold getn in H.
+  destruct (lookup t (nid y)) as [[[y' lo] ro]|]; [|discriminate]. inversion H; subst. eauto. Qed.
+
+Theorem nearest_empty_key s : qnearest kcmp s [] = Ok (s, cursor0, None).
+Proof. reflexivity. Qed.
+
+(* C04: the search returns the equal key, else the greatest smaller key, else the smallest key; the cursor it hands
+   out names that node, and the parent links from that node up to the root are in place (none at the root) *)
+Theorem nearest_floor s k : Inv s -> IdInv s -> k <> [] ->
+  exists s1 c, qnearest kcmp s k = Ok (s1, c, snearest kcmp k (abs s)) /\
+    root s1 = root s /\ num s1 = num s /\ ttid s1 = ttid s /\ nextid s1 = nextid s /\ tids s1 = tids s /\
+    match snearest kcmp k (abs s) with
+    | None => c = cursor0 /\ root s = E
+    | Some e => exists x, In x (elements (root s)) /\ e = kv x /\ c = (ttid s, Some (nid x)) /\
+                 plink (nexts s1) (root s) (nid x) /\ (forall ri, rootid (root s) = Some ri -> PM.find ri (nexts s1) = None)
+    end.
+Proof.
+  intros ((_ & _ & Hs) & _) (Hnd & _) Hk. unfold qnearest. destruct k as [|k0 k]; [congruence|]. set (key := k0 :: k).
+  unfold abs. destruct (root s) as [|c l x r] eqn:R.
+  - cbn. eexists. eexists. split; [reflexivity|]. cbn. repeat split; auto.
+  - cbn [rootid].
+    match goal with |- context[fn_descend ?a ?b ?c ?d ?e] => destruct (fn_descend a b c d e) as [[found last] nx] eqn:D end.
+    destruct (descend_spec (T c l x r) (probe key) _ _ _ _ _ _ D (lookup_sub _ Hnd) Hnd) as (L1 & L2).
+    assert (Hroot : PM.find (nid x) nx = None) by (rewrite L1 by (right; reflexivity); apply PM.grs).
+    assert (Hfl : forall y, tfloor (T c l x r) (probe key) None = Some y -> snearest kcmp key (map kv (elements (T c l x r))) = Some (kv y)).
+    { intros y Hy. unfold snearest. change (@None (list N * list N)) with (option_map kv None). rewrite <- map_lfloor, <- tfloor_spec by exact Hs.
+      rewrite Hy. reflexivity. }
+    assert (Hfin : forall y, In y (elements (T c l x r)) -> plink nx (T c l x r) (nid y) ->
+              snearest kcmp key (map kv (elements (T c l x r))) = Some (kv y) ->
+       exists s1 c0, match lookup (T c l x r) (nid y) with
+                   | Some (x0, _, _) => Ok (mkTbl (T c l x r) (num s) (ttid s) (nextid s) (tids s) nx, (ttid s, Some (nid y)), Some (nkey x0, nval x0))
+                   | None => Crash end = Ok (s1, c0, snearest kcmp key (map kv (elements (T c l x r)))) /\
+         root s1 = T c l x r /\ num s1 = num s /\ ttid s1 = ttid s /\ nextid s1 = nextid s /\ tids s1 = tids s /\
+         match snearest kcmp key (map kv (elements (T c l x r))) with
+         | None => c0 = cursor0 /\ T c l x r = E
+         | Some e => exists x1, In x1 (elements (T c l x r)) /\ e = kv x1 /\ c0 = (ttid s, Some (nid x1)) /\
+                 plink (nexts s1) (T c l x r) (nid x1) /\ (forall ri, Some (nid x) = Some ri -> PM.find ri (nexts s1) = None)
+         end).
+    { intros y Hy Py Hsn. destruct (lookup_elem _ y Hnd Hy) as (lo & ro & ->). rewrite Hsn. eexists. eexists. split; [reflexivity|].
+      cbn [root num ttid nextid tids nexts]. repeat split; auto. exists y. repeat split; auto. intros ri Hri. inversion Hri; subst. exact Hroot. }
+    destruct found as [i|].
+    + destruct L2 as (P & y & -> & Hy & Hb). cbn [bind]. apply Hfin; auto.
+    + destruct L2 as (z & -> & Hz & Pz & Cl). unfold climbs in Cl. destruct (tfloor (T c l x r) (probe key) None) as [y|] eqn:TF.
+      * destruct Cl as (Hy & Py & d & Hd & Hf).
+        replace (S (size (T c l x r))) with ((S (size (T c l x r)) - d) + d) by lia. rewrite Hf. cbn [bind]. apply Hfin; auto.
+      * destruct Cl as (Hhd & d & Hd & Hf).
+        replace (S (size (T c l x r))) with ((S (size (T c l x r) - d)) + d) by lia. rewrite (Hf _ (nid x) eq_refl), Hroot. cbn [fn_climb bind].
+        apply Hfin; auto. unfold snearest. change (@None (list N * list N)) with (option_map kv None). rewrite <- map_lfloor, <- tfloor_spec by exact Hs.
+        rewrite TF. cbn [option_map]. destruct (elements (T c l x r)); [discriminate|]. cbn in Hhd. inversion Hhd; subst. reflexivity.
+Qed.
 End Iter.
